@@ -8,6 +8,20 @@ HERE = os.path.dirname(os.path.dirname(os.path.abspath(__file__)))
 ALL = ["C%02d" % i for i in range(1, 21)]
 
 CHECKS = {
+ "C15": dict(
+  category="exploration",
+  text="(a) planted random reference graphs (2-14 nodes, chains up to 110/200) over virtual fields, field locations, conditions, "
+       "enum values, and import graphs over 2-5 files, with the expected verdict from an own iterative SCC: 'Dependency cycle' / "
+       "'Import dependency cycle' iff a cycle exists, acyclic sets accepted; (b) post-condition monitor on the real "
+       "dependency_checker._find_cycles (result == independent SCC of its argument graph) active during all compilations of the "
+       "run; (c) order checker on every accepted structure (planted, semantic-generator and corpus modules): "
+       "fields_in_dependency_order is a permutation, each field after the fields its location / condition / value mention, and "
+       "equal to source order whenever source order is valid. Non-termination is decided by RecursionError or a 150 CPU-second "
+       "budget (a 200-field chain needs ~13).",
+  note="The equals-source-order clause is asserted only when source order is valid for the superset of mentions (any "
+       "reference inside the field outside attributes); compiler crashes on non-planted inputs are C16's subject and skipped here.",
+  technique="planted-graph differential oracle + wrapped-function post-condition monitor + IR order checker",
+  design_ref="5/C15"),
  "C05": dict(
   category="exploration",
   text="Invariant at a hook: a post-condition wrapper on the real glue.process_ir walks every integer Expression node of every "
